@@ -70,6 +70,7 @@ struct SrcM {
 
 struct EvtObs {
     int type = -1;
+    int prio = -1;         // priority as configured by the module when the event was handed over: 0 low, 1 normal, 2 high, -1 unknown
     bool system = false;
     int sender_slot = -1;
     const void *sender = nullptr;
@@ -307,6 +308,7 @@ Frame *cur_api_frame();
 bool frame_on_stack(const char *name, int slot);
 bool frame_on_stack_any(const char *name);
 bool leaving(int slot);
+int evt_prio(Slot &s, const EvtObs &e);
 bool cb_on_stack(int cb, int slot);
 bool ctx_is_looping_probe(bool *known);
 bool flush_phase_now();
